@@ -249,6 +249,7 @@ func (o *structFieldsJSON) Delete(key string) {
 	for i, existing := range o.Keys {
 		if existing == key {
 			o.Keys = append(o.Keys[:i], o.Keys[i+1:]...)
+			break
 		}
 	}
 }
